@@ -91,6 +91,15 @@ type Footer struct {
 // higher snapshot may be nil.
 func (s *Store) persist(higher Snapshot, persistOptions StorePersistOptions) (
 	Snapshot, error) {
+	// A closed store has dropped its footer: persisting on top of
+	// "nothing" would start a new file that shadows all earlier data.
+	s.m.Lock()
+	closed := s.refs <= 0
+	s.m.Unlock()
+	if closed {
+		return nil, ErrClosed
+	}
+
 	wasCompacted, err := s.compactMaybe(higher, persistOptions)
 	if err != nil {
 		return nil, err
